@@ -79,6 +79,9 @@ def c_white(ctx, case):
     ctx.close(np.asarray(w.input_subtract, float), X.mean(axis=0), "input_subtract == mean", rtol=1e-12,
               atol=1e-12 * np.abs(X).max())
     if case["dask"]:
+        # the fitted (NumPy) estimator applied to a Dask array gives the same transformed rows
+        Yd = np.asarray(dask.compute(w.transform(darr(X, case["chunks"])))[0], float)
+        ctx.close(Yd, Y, "transform(Dask array) == transform(NumPy array)", rtol=1e-10, atol=1e-12 * (np.abs(Y).max() + 1e-300))
         d = Whitening(pinv=case["pinv"]).fit(darr(X, case["chunks"]))
         Wd, sub = dask.compute(d.weights, d.input_subtract)
         ctx.close(np.asarray(Wd, float), W, "dask whitening weights == numpy", rtol=1e-7 * max(1, cond * 1e-3),
